@@ -125,6 +125,56 @@ Theorem C16_uniform_copy_before_fix_refuted :
   exists s self s1 c, ut_copy_old self s = (s1, Ok c) /\ exists x, In x (footprint s1 c) /\ x < next s.
 Proof. exact ut_copy_old_refuted. Qed.
 
+(* ---- DERIVED OBJECTS.  numpy hands the t0 / interval / duration slots of a UniformTime BY REFERENCE
+        (__array_finalize__) to every axis derived without .copy() / the constructor: ufunc results
+        (`x + 0`, `x - 1`), copy.copy(x), copy.deepcopy(x), np.copy(x, subok=True) [np_derive: own
+        buffer] and views x[:], x.view() [view_of: shared buffer].  Because _follow_shift and __imul__
+        RE-BIND the slots to fresh objects, ANY history of += -= *= on the derived axis leaves every
+        object that existed unchanged - samples AND the values of the shared attribute objects; on a
+        view only the shared sample buffer b is written (numpy's view semantics), so every object
+        whose footprint avoids b - the attribute objects of x in particular - is unchanged. *)
+Theorem C16_derived_then_any_history : forall g x s s1 d ops l,
+  wf s -> l < next s -> np_derive g x s = (s1, Ok d) -> snapshot (run_uops d ops s1) l = snapshot s l.
+Proof. exact derive_history_snapshot. Qed.
+Print Assumptions C16_derived_then_any_history.
+Theorem C16_view_then_any_history : forall x s s1 v ops b sh k l,
+  wf s -> mem s x = Some (CArr b sh k) -> view_of x s = (s1, Ok v) ->
+  l < next s -> ~ In b (footprint s l) ->
+  snapshot (run_uops v ops s1) l = snapshot s l.
+Proof. exact view_history_snapshot. Qed.
+Theorem C16_derived_then_setitem_timearray : forall g x s s1 d a n v l, wf s -> l < next s ->
+  np_derive g x s = (s1, Ok d) -> snapshot (fst (ta_setitem d a n v s1)) l = snapshot s l.
+Proof. exact derive_setitem_snapshot. Qed.
+(* with AUGMENTED assignments in _follow_shift (`self.t0 += ...`: ndarray.__iadd__ on the shared
+   object) the original axis - which the in-place call never received - shows another t0 while its
+   samples (arr_snap) stay put *)
+Theorem C16_follow_shift_augmented_refuted :
+  exists s x s1 d, np_derive (fun l => l) x s = (s1, Ok d) /\
+    snd (ut_iop_aug 1 d (PInt 3) s1) = Ok tt /\
+    snapshot (fst (ut_iop_aug 1 d (PInt 3) s1)) x <> snapshot s x /\
+    arr_snap (fst (ut_iop_aug 1 d (PInt 3) s1)) x = arr_snap s x.
+Proof. exact follow_shift_aug_refuted. Qed.
+(* non-vacuity: a derived axis that does share the attribute objects 1 and 3 of the example axis 7;
+   `d += 3` moves d and not the original; `v += 3` on a view moves the shared samples and keeps the
+   values of the attribute objects 1, 3, 5 *)
+Example C16_ex_derived_shares :
+  exists s1 d, np_derive (fun l => l) 7 ex_ut = (s1, Ok d) /\ In 1 (footprint s1 d) /\ In 3 (footprint s1 d).
+Proof. exact ex_derived_shares. Qed.
+Example C16_ex_derived_iadd :
+  exists s1 d, np_derive (fun l => l) 7 ex_ut = (s1, Ok d) /\
+    snd (ut_iop 1 d (PInt 3) s1) = Ok tt /\
+    snapshot (fst (ut_iop 1 d (PInt 3) s1)) d <> snapshot s1 d /\
+    snapshot (fst (ut_iop 1 d (PInt 3) s1)) 7 = snapshot ex_ut 7.
+Proof. exact ex_derived_iadd. Qed.
+Example C16_ex_view_iadd :
+  exists s1 v, view_of 7 ex_ut = (s1, Ok v) /\
+    snd (ut_iop 1 v (PInt 3) s1) = Ok tt /\
+    arr_snap (fst (ut_iop 1 v (PInt 3) s1)) 7 <> arr_snap ex_ut 7 /\
+    snapshot (fst (ut_iop 1 v (PInt 3) s1)) 1 = snapshot ex_ut 1 /\
+    snapshot (fst (ut_iop 1 v (PInt 3) s1)) 3 = snapshot ex_ut 3 /\
+    snapshot (fst (ut_iop 1 v (PInt 3) s1)) 5 = snapshot ex_ut 5.
+Proof. exact ex_view_iadd. Qed.
+
 (* ---- FRAME: TimeSeries + - * (through copy) and += -= *= (the buffer of self.data only) *)
 Theorem C16_frame_series_arith : forall f self v s l,
   wf s -> l < next s -> snapshot (fst (ts_binop f self v s)) l = snapshot s l.
